@@ -763,7 +763,12 @@ func (r *runner) writeDriver(sc *Scenario, results []*DeclResult, mode string) {
 				sb.WriteString("\t\textra = append(extra, \"fnbg=\"+rt.Run(func() error { return Validate" + T + "Context(context.Background(), v) }))\n")
 			}
 			if has("ctx") {
-				fmt.Fprintf(&sb, "\t\tfor k := 0; k <= %d; k++ {\n", dr.Polls+1)
+				// cancellation points: every k up to one past the number of polls — of the structural dump or of an undisturbed
+				// run under a counting context, whichever is larger (an output whose polls have another form dumps as 0 polls)
+				sb.WriteString("\t\tprobe := &rt.FlipCtx{Context: context.Background(), K: 1 << 30, Kind: context.Canceled}\n")
+				sb.WriteString("\t\trt.Run(func() error { return v.ValidateContext(probe) })\n")
+				fmt.Fprintf(&sb, "\t\tkmax := %d\n\t\tif probe.Calls > kmax && probe.Calls < 4096 {\n\t\t\tkmax = probe.Calls\n\t\t}\n", dr.Polls)
+				sb.WriteString("\t\tfor k := 0; k <= kmax+1; k++ {\n")
 				sb.WriteString("\t\t\tfor _, kind := range []error{context.Canceled, context.DeadlineExceeded} {\n")
 				// odd k: the parent is a standard context already cancelled WITH A CUSTOM CAUSE — invisible through Err() (overridden),
 				// but a validator that returns context.Cause(ctx) instead of ctx.Err() hands out that cause
